@@ -426,7 +426,14 @@ fn render_body(c: &Case) -> (String, Option<String>) {
             read_loop,
             sink_buf,
         } => {
-            let payload = here_payload(*n, *s);
+            let mut payload = here_payload(*n, *s);
+            // half of the bodies contain multi-byte characters (bytes != chars)
+            if *s % 2 == 1 {
+                let mut p = "caf\u{e9} \u{3042}\u{3044} \u{1F600}\n".as_bytes().to_vec();
+                p.extend_from_slice(&payload);
+                p.extend_from_slice("\u{df}\u{e9}\n".as_bytes());
+                payload = p;
+            }
             let mut body = payload.clone();
             let mut expected_data = payload.clone();
             let delim = if *quoted { "'EOF'" } else { "EOF" };
